@@ -419,9 +419,80 @@ func c17Mutants(rng *kit.Rand, s string, others []string, enc *base64.Encoding) 
 
 // ---------------------------------------------------------------- API wrapper
 
+// c17FaultStore is a logical.Storage that fails one chosen operation once.
+// It wraps the in-memory storage as a plain (non-transactional) Storage.
+type c17FaultStore struct {
+	logical.Storage
+	armed   bool
+	failAt  int
+	n       int
+	fired   bool
+	firedOp string
+}
+
+var errC17Injected = fmt.Errorf("verif: injected storage fault")
+
+func (f *c17FaultStore) hit(op, key string) error {
+	if !f.armed {
+		return nil
+	}
+	i := f.n
+	f.n++
+	if i == f.failAt && !f.fired {
+		f.fired = true
+		pfx := key
+		if j := strings.IndexByte(key, '/'); j >= 0 {
+			pfx = key[:j]
+		}
+		f.firedOp = op + "_" + pfx
+		return errC17Injected
+	}
+	return nil
+}
+
+// arm makes the k-th storage operation from now on fail (k < 0: none).
+func (f *c17FaultStore) arm(k int) {
+	f.armed, f.failAt, f.n, f.fired, f.firedOp = k >= 0, k, 0, false, ""
+}
+
+// disarm reports whether the fault fired and on what.
+func (f *c17FaultStore) disarm() (bool, string) {
+	f.armed = false
+	return f.fired, f.firedOp
+}
+
+func (f *c17FaultStore) Get(ctx context.Context, key string) (*logical.StorageEntry, error) {
+	if err := f.hit("get", key); err != nil {
+		return nil, err
+	}
+	return f.Storage.Get(ctx, key)
+}
+
+func (f *c17FaultStore) Put(ctx context.Context, e *logical.StorageEntry) error {
+	if err := f.hit("put", e.Key); err != nil {
+		return err
+	}
+	return f.Storage.Put(ctx, e)
+}
+
+func (f *c17FaultStore) Delete(ctx context.Context, key string) error {
+	if err := f.hit("delete", key); err != nil {
+		return err
+	}
+	return f.Storage.Delete(ctx, key)
+}
+
+func (f *c17FaultStore) List(ctx context.Context, prefix string) ([]string, error) {
+	if err := f.hit("list", prefix); err != nil {
+		return nil, err
+	}
+	return f.Storage.List(ctx, prefix)
+}
+
 type c17API struct {
 	ctx     context.Context
-	st      *logical.InmemStorage
+	st      *logical.InmemStorage // raw view for the harness
+	fs      *c17FaultStore        // nil: requests see the (transactional) in-memory storage itself
 	b       *backend
 	noCache bool
 	r       *kit.Result
@@ -431,6 +502,19 @@ type c17API struct {
 func c17NewAPI(ctx context.Context, r *kit.Result, id string, noCache bool) (*c17API, error) {
 	a := &c17API{ctx: ctx, st: &logical.InmemStorage{}, noCache: noCache, r: r, id: id}
 	return a, a.restart()
+}
+
+// withFaults routes all requests through a fault-injecting, non-transactional storage.
+func (a *c17API) withFaults() *c17API {
+	a.fs = &c17FaultStore{Storage: a.st}
+	return a
+}
+
+func (a *c17API) reqStorage() logical.Storage {
+	if a.fs != nil {
+		return a.fs
+	}
+	return a.st
 }
 
 // restart builds a new backend object over the same storage (cold cache).
@@ -462,7 +546,7 @@ func (a *c17API) do(op logical.Operation, path string, data map[string]any) (out
 			a.r.Violate("C17-panic", a.id, fmt.Sprintf("%s %s panicked: %v", op, path, p), nil)
 		}
 	}()
-	resp, err := a.b.HandleRequest(a.ctx, &logical.Request{Operation: op, Path: path, Data: data, Storage: a.st})
+	resp, err := a.b.HandleRequest(a.ctx, &logical.Request{Operation: op, Path: path, Data: data, Storage: a.reqStorage()})
 	if err != nil {
 		out.Refused = true
 		out.Err = err.Error()
